@@ -975,15 +975,17 @@ def gen_hetero(rng, size, ring):
 from harness import c02_orders
 from harness import c02_kernel
 from harness import c02_sessions
+from harness import c02_harden
 THEOREMS = THEOREMS + c02_orders.THEOREMS_ORDERS
 CLAIM = dict(CLAIM, text=CLAIM["text"] + " " + c02_orders.CLAIM_ORDERS + " " + c02_kernel.CLAIM_KERNEL + " " +
-             c02_sessions.CLAIM_SESSIONS + " " + c02_names.CLAIM_NAMES,
+             c02_sessions.CLAIM_SESSIONS + " " + c02_names.CLAIM_NAMES + " " + c02_harden.CLAIM_HARDEN,
              note=CLAIM["note"] + " " + c02_orders.NOTE_ORDERS)
 
 
 def run(ctx):
     ctx.extra["rule"] = RULE + " " + c02_orders.RULE_ORDERS + " " + c02_kernel.RULE_KERNEL + " " + \
-        c02_sessions.RULE_SESSIONS + " " + c02_names.RULE_NAMES
+        c02_sessions.RULE_SESSIONS + " " + c02_names.RULE_NAMES + " " + c02_variants.RULE_VARIANTS + " " + \
+        c02_harden.RULE_HARDEN
     hilbert_checks(ctx)
     c02_orders.run_orders(ctx)
     ctx.extra["trusted_base"] = ["rig_c_sa (compiled annealing kernel outside /repo): opaque, checked only by the Feasible oracle",
@@ -1019,6 +1021,7 @@ def run(ctx):
         eval_problems(ctx, [prob])
     c02_kernel.run_kernel(ctx)
     c02_sessions.run_sessions(ctx)
+    c02_harden.run_harden(ctx)
 
 
 def replay(ctx, payload):
@@ -1028,6 +1031,8 @@ def replay(ctx, payload):
         return c02_kernel.replay_kernel(ctx, payload)
     if "orders" in case or "orders-fixed" in case:
         return c02_orders.replay_orders(ctx, payload)
+    if "harden" in case:
+        return c02_harden.replay_harden(ctx, payload)
     if "session" in case or "machine_sequence" in case:
         return c02_sessions.replay_sessions(ctx, payload)
     eval_problems(ctx, [case["problem"]])
